@@ -232,7 +232,11 @@ def run_shard(args):
         except hypothesis.errors.FailedHealthCheck:
             stats.harness_error = traceback.format_exc()
         except hypothesis.errors.Flaky:
-            pass
+            # expected when the shrink time budget cuts replays short after a
+            # violation; without a violation it is an error of the harness
+            # (an exception outside check()), never to be swallowed
+            if state['last'] is None:
+                stats.harness_error = traceback.format_exc()
         except hypothesis.errors.HypothesisException:
             if state['last'] is None:
                 stats.harness_error = traceback.format_exc()
